@@ -92,6 +92,7 @@ class EncTheory(LexTheory):
         return super().axioms() + [
             z3.ForAll([x], strcat(empty, x) == x, patterns=[strcat(empty, x)]),
             z3.ForAll([x], strcat(x, empty) == x, patterns=[strcat(x, empty)]),
+            z3.ForAll([x], (strlen(x) == 0) == (x == empty), patterns=[strlen(x)]),
             # definitions of the three table-search predicates (used for the forall-closure obligations)
             z3.ForAll([k, x, y], z3.Implies(z3.And(set_has(k, x), casefold(x) == y), cf_in(k, y)),
                       patterns=[z3.MultiPattern(set_has(k, x), cf_in(k, y))]),
@@ -338,6 +339,25 @@ class EncTheory(LexTheory):
                  ast.Gt: lambda x, y: x > y, ast.GtE: lambda x, y: x >= y}[type(op)]
             return Z("bool", f(ra, rb))
         return super().compare(ex, op, a, b)
+
+    def joined_str(self, ex, node):
+        """an f-string made of texts only ({q}{s}{q}) is their concatenation; anything else is message text"""
+        acc = None
+        for v in node.values:
+            if isinstance(v, ast.Constant):
+                t = lit(v.value) if v.value else None
+            elif v.format_spec is None and v.conversion == -1:
+                try:
+                    t = self.sv(ex.expr(v.value))
+                except Untranslatable:
+                    return OPAQUE_STR
+                if t is None:
+                    return OPAQUE_STR
+            else:
+                return OPAQUE_STR
+            if t is not None:
+                acc = t if acc is None else strcat(acc, t)
+        return Z("str", acc if acc is not None else lit(""))
 
     def str_format(self, ex, template, arg_nodes):
         if template == "{} = {}" and len(arg_nodes) == 2:
